@@ -44,7 +44,7 @@ CHECKS["C04"] = {
     "technique": "contract-based deductive verification (Verus, nonlinear arithmetic hints) of the cost kernel",
 }
 CHECKS["C17"] = {
-    "text": "Proof (Verus, real code) of FixWord::to_scaled == TeX.2021.568-572 store_scaled bit for bit, for every fix_word with |x| < 16 and every non-negative design size (z-reduction loop, byte-wise multiplication, negative-word correction, no overflow in any intermediate product), and of FixWord's Display == TFtoPL.2014.40-43 print_fix (digit generation with the delta stopping rule) for every fix_word.",
+    "text": "Proof (Verus, real code) of FixWord::to_scaled == TeX.2021.568-572 store_scaled bit for bit, for every fix_word with |x| < 16 and every non-negative design size (z-reduction loop, byte-wise multiplication, negative-word correction, no overflow in any intermediate product; a fix_word outside that range - for which TeX rejects the font - is clamped into it, and the function is proved total), and of FixWord's Display == TFtoPL.2014.40-43 print_fix (digit generation with the delta stopping rule) for every fix_word.",
     "design_ref": "DESIGN.md §5 C17",
     "note": "Bounded only (labelled bounded): fix_word print -> parse round trip, compress minimal tolerance, next-larger chains, dimension-table limits in From<pl::File>. Trusted: to_be_bytes byte split, Formatter output model; common::Scaled operator contracts are proved in unit common_scaled.",
     "technique": "contract-based deductive verification (Verus loop invariant + recursive spec of TeX's loop)",
@@ -77,7 +77,7 @@ CHECKS["C02"] = {
     "technique": "contract-based deductive verification (Verus loop invariant over a brace-depth spec) + bounded contract check where the verifier does not reach",
 }
 CHECKS["C09"] = {
-    "text": "FUNCTIONS UNDER CONTRACT ONLY. Proof (Verus) that every texlang / common / stdext function under contract in C01, C02, C06, C07, C20 is free of arithmetic overflow, out-of-bounds indexing, unwrap/expect on None/Err, unreachable!/todo! and division by zero for ALL inputs satisfying its stated precondition, with every precondition discharged at each verified call site; plus a bounded driver running the real number/dimension/character-code scanners on values at and beyond every limit. Totality of the interpreter as a whole is NOT claimed.",
+    "text": "FUNCTIONS UNDER CONTRACT ONLY. Proof (Verus) that every texlang / common / stdext function under contract in C01, C02, C06, C07, C20 is free of arithmetic overflow, out-of-bounds indexing, unwrap/expect on None/Err, unreachable!/todo! and division by zero for ALL inputs satisfying its stated precondition, with every precondition discharged at each verified call site; plus bounded drivers (labelled bounded) running the real VM with the full standard library: the scanners on values at and beyond every limit, extreme register contents in every context, the inputs the property names (\\the on non-variables, errors on non-ASCII lines) in all four interaction modes, every primitive x 50 argument shapes and every pair of primitives, and pseudo-random token soups. Totality of the interpreter as a whole is NOT claimed as proved.",
     "design_ref": "DESIGN.md §5 C09",
     "note": "About 85% of the VM (run_impl dispatch, the.rs, error rendering, file location parsing, most primitives) is outside the functions under contract; shutdown-protocol consistency is not decided. The check reports only safety-kind obligations (postcondition mismatches belong to the property that owns the unit).",
     "technique": "contract-based deductive verification: Verus safety obligations (overflow/bounds/unwrap/division) of the functions under contract",
